@@ -139,6 +139,7 @@ func H_C07_Hidden(v *sym.V) {
 	}
 	// after transfer
 	e1, ep1 := wire.Hop(e), wire.Hop(ep)
+	v.Assert("text-after-hop@"+tag, e1.Error() == e.Error())
 	sameAnalysis(v, tag+"/hop", e1, ep1, probes)
 	for _, n := range inner {
 		v.Assert("is-hidden@"+tag+"/hop", !errors.Is(e1, n))
